@@ -6,7 +6,7 @@ Import ListNotations.
 Local Open Scope R_scope.
 
 Lemma ddl_residual_is_gouy_chapman_all :
-  forall la mu eps tk f A g, 0 <= mu -> 0 <= eps -> 0 < tk ->
+  forall la mu eps tk f A g, 0 <= mu -> 0 <= eps -> 0 < tk -> A * g <> 0 ->
   let L := ln 10 in
   let psi := evalR (env_of [la; L; tk]) edl_psi in
   let sigma := evalR (env_of [f; A; g]) edl_sigma in
@@ -14,7 +14,7 @@ Lemma ddl_residual_is_gouy_chapman_all :
 Proof. exact (ResidualProofs.ddl_residual_is_gouy_chapman). Qed.
 
 Lemma ccm_residual_is_C_psi_all :
-  forall la tk C f A g,
+  forall la tk C f A g, A * g <> 0 ->
   let L := ln 10 in
   let psi := evalR (env_of [la; L; tk]) edl_psi in
   let sigma := evalR (env_of [f; A; g]) edl_sigma in
@@ -85,18 +85,14 @@ Lemma surface_activity_and_site_row_all :
   (forall sites f, evalR (env_of [sites; f]) surf_res = 0 <-> f = sites).
 Proof. exact (conj ResidualProofs.surface_activity_is_site_fraction ResidualProofs.site_balance_row). Qed.
 
-Lemma surface_row_guards_shape_all :
-  guards_shape_ok = true.
-Proof. exact (Guards.guards_shape). Qed.
-
 Lemma ok_implies_laws_partial_all :
-  (forall la mu eps tk f A g minrel toler, 0 <= mu -> 0 <= eps -> 0 < tk -> g > minrel ->
+  (forall la mu eps tk f A g minrel toler, 0 <= mu -> 0 <= eps -> 0 < tk -> A * g <> 0 -> g > minrel ->
     let L := ln 10 in
     let psi := evalR (env_of [la; L; tk]) edl_psi in
     let sigma := evalR (env_of [f; A; g]) edl_sigma in
     ~ charge_row_fails g minrel (evalR (env_of [la; L; mu; eps; tk; f; A; g]) ddl_res) toler ->
     Rabs (sigma - gouy_chapman eps tk mu psi) <= toler) /\
-  (forall la tk C f A g minrel toler, g > minrel ->
+  (forall la tk C f A g minrel toler, A * g <> 0 -> g > minrel ->
     let L := ln 10 in
     let psi := evalR (env_of [la; L; tk]) edl_psi in
     let sigma := evalR (env_of [f; A; g]) edl_sigma in
